@@ -74,12 +74,6 @@ theorem importMn_db (st : St) (w : String) (p : Pass) (src : String) (ext int : 
           | none => rfl
           | some v => simp [hw] at h3
 
-/-- the key the branch public key is sealed under, read off the stored box (newAddr re-uses it) -/
-def exbKey (t : Term) : Term :=
-  match t with
-  | .enc k _ => k
-  | _ => .pub "missing"
-
 theorem newAddr_db (st : St) (w : String) : (newAddr st w).2 ≠ .ok ∨
     ∃ r a, AMap.get st.wal w = some (r, a) ∧
       (newAddr st w).1.db = putAll st.db
@@ -180,10 +174,6 @@ theorem chpubOneB_eq (t : Tree) (id : Bytes) (pubParams cPubEnc : Bytes) (h1 : p
       simp only [putCryptoKeys, putOpt_some, putOpt_none, this, bind, Except.bind, insAll, List.foldl_cons, List.foldl_nil])
   simp only [chpubOneB, e1, e2, seqE_ok, ← tinsAll_append]
   rfl
-
-/-- the symbolic writes of ChangePubPassphrase for one keystore (one step of the fold `chpubWrites`) -/
-def chpubEntries (w : String) (salt : Nat) (new : Pass) (ck : Term) : List (Key × Term) :=
-  [ ((w, .mpub), paramsT salt new), ((w, .cpub), .enc (masterKey salt new) ck) ]
 
 /-- SYM_WRITE_REFINES_BYTES, change of the public passphrase, per keystore -/
 theorem chpubOne_refines (C : BCrypto) (L : Laws C) (ρ : PubVal) (db : DB) (t : Tree) (w : String) (salt : Nat) (new : Pass)
